@@ -467,10 +467,49 @@ def hoist_if(repo: Repo, chk: Check) -> None:
             if dom_ is not None and norm.any_match(["$op.values", "$op.operands"], dom_, {"op": op}) is not None:
                 if "get_operation_index" in txt or "is_before_in_block" in txt or "val_is_defined" in txt or "dominat" in txt:
                     avail = fact
-    chk.result(avail is not None, "C01.hoist-if", f"{f.key}:values-available-in-if", first.where() if first else f.where,
-               "every value of the setup is known to be defined before the scf.if (position test over op.values)",
-               "no guard relates the definitions of the setup's values to the position of the scf.if: a value computed between the scf.if and the "
-               "setup is used before its definition after sinking", first.fact_texts if first else [])
+    # ... strictly before it: a value that is a result of the scf.if itself (same position) does not exist inside its branches either
+    if avail is not None:
+        bodies = [b.expr for b in avail.body] if avail.kind == "forall" else [avail.expr]
+        strict = None
+        for b_ in bodies:
+            for c_ in ast.walk(b_):
+                if not (isinstance(c_, ast.Compare) and len(c_.ops) == 1 and "get_operation_index" in ast.unparse(c_)):
+                    continue
+                l_, r_ = c_.left, c_.comparators[0]
+                l_if = norm.contains(l_, T("$op.in_state.owner"), {"op": op})
+                r_if = norm.contains(r_, T("$op.in_state.owner"), {"op": op})
+                if l_if == r_if:
+                    continue
+                # polarity of the comparison inside the (positive) fact
+                neg = 0
+                def _depth(root: ast.AST, tgt: ast.AST, d: int = 0) -> int | None:
+                    if root is tgt:
+                        return d
+                    for ch in ast.iter_child_nodes(root):
+                        got = _depth(ch, tgt, d + (1 if isinstance(root, ast.UnaryOp) and isinstance(root.op, ast.Not) else 0))
+                        if got is not None:
+                            return got
+                    return None
+                neg = _depth(b_, c_) or 0
+                o_ = type(c_.ops[0])
+                if neg % 2:
+                    o_ = {ast.Lt: ast.GtE, ast.LtE: ast.Gt, ast.Gt: ast.LtE, ast.GtE: ast.Lt}.get(o_, o_)
+                # normalise to `value position <op> if position`
+                if l_if:
+                    o_ = {ast.Lt: ast.Gt, ast.LtE: ast.GtE, ast.Gt: ast.Lt, ast.GtE: ast.LtE}.get(o_, o_)
+                strict = o_ is ast.Lt if strict is None else strict and o_ is ast.Lt
+        if strict is False:
+            chk.bad("C01.hoist-if", f"{f.key}:values-available-in-if", first.where() if first else f.where,
+                    "a value defined AT the position of the scf.if passes the availability test (`<=`): a result of the scf.if itself is used inside its own branches after "
+                    "sinking (use before definition)", first.fact_texts if first else [])
+            avail = False  # type: ignore[assignment]
+        elif strict is None and ("get_operation_index" in avail.text):
+            raise AnalysisError(f"{f.where}: the position test over the setup's values is not recognised: {avail.text[:160]}")
+    if avail is not False:
+        chk.result(avail is not None, "C01.hoist-if", f"{f.key}:values-available-in-if", first.where() if first else f.where,
+                   "every value of the setup is known to be defined before the scf.if (position test over op.values)",
+                   "no guard relates the definitions of the setup's values to the position of the scf.if: a value computed between the scf.if and the "
+                   "setup is used before its definition after sinking", first.fact_texts if first else [])
     # clone placement and yield rewrite
     ins = [s for s in fl.calls("insert_op") if s.reachable]
     ok_place = False
